@@ -560,7 +560,7 @@ def corner_cases():
 
 
 def plan(tier, seed):
-    n = 12000 if tier == "quick" else 480_000
+    n = 20000 if tier == "quick" else 480_000
     shards = [dict(kind="corners")]
     for s, c in harness.split_range(n, 16 if tier == "quick" else 48):
         shards.append(dict(kind="gen", seed=seed, start=s, count=c))
